@@ -115,6 +115,28 @@ pub fn check(c: &Case) -> R {
     let fmd = FMDIndex::from(FMIndex::new(&bw, &le, &oc));
     let cx = Ctx { c, text: &text, sa: &sa };
 
+    // the FMD index is an `FMIndexable` as well: plain backward search through it (pattern, its substrings'
+    // worth of suffixes, the walk strings) must classify and locate like the FM index (oracle of C05)
+    {
+        let mut pats: Vec<Vec<u8>> = vec![c.pattern.0.clone()];
+        for w in &c.walks {
+            let mut s: Vec<u8> = vec![w.first as u8];
+            for st in &w.steps {
+                if st.fwd {
+                    s.push(st.sym as u8);
+                } else {
+                    s.insert(0, st.sym as u8);
+                }
+            }
+            pats.push(s);
+        }
+        let syms: Vec<u8> = alphabet.symbols.iter().map(|b| b as u8).collect();
+        crate::props::c05::check_implementor(&fmd, &text, &syms, c.k, &pats).map_err(|e| match e {
+            Stop::Fail(m) => Stop::Fail(format!("FMDIndex::backward_search (FMIndexable): {}", m)),
+            o => o,
+        })?;
+    }
+
     let p: &[u8] = &c.pattern;
     let m = p.len();
     let l = c.l;
@@ -179,6 +201,12 @@ pub fn check(c: &Case) -> R {
                 pass.add("extension of an empty bi-interval");
             }
             let a = st.sym as u8;
+            // a bi-interval is a plain value: one that went through a serde round trip (every third step) is
+            // the bi-interval of the same string and extends like it
+            if steps_done % 3 == 1 {
+                bi = crate::props::extra3::serde_copy("BiInterval", &bi)?;
+                pass.add("bi-interval passed through a serde round trip before the extension");
+            }
             if st.fwd {
                 s.push(a);
                 bi = fmd.forward_ext(&bi, a);
